@@ -309,7 +309,7 @@ def shard(cname, dt, delayk, mode, tol_k, ob_kind, B, T, via="ctor", shape=(2,))
 
 def run(rep):
     quick = rep.tier == "quick"
-    T = 3 if quick else 5
+    T = 3 if quick else 4
     jobs = []
     for cname in CLASSES:
         for dt in (1.0, 0.5):
